@@ -178,6 +178,22 @@ def print_digests(check, batch_name, indices, base_seed):
 def replay_file(check, path):
     """Re-execute a replay file in this (fresh) interpreter."""
     rp = json.load(open(path, encoding="utf-8"))
+    if rp.get("kind") == "rerun-differs":
+        ctx = check.prepare(rp.get("tier", "quick"), rp.get("base_seed", 0)) if hasattr(check, "prepare") else None
+        try:
+            fn = make_runner(check, rp["batch"], rp.get("base_seed", 0), ctx)
+            digs = [pool.run_isolated(fn, rp["run_index"], 600).get("digest") for _ in range(4)]
+        finally:
+            if hasattr(check, "cleanup"):
+                check.cleanup(ctx)
+        if len(set(digs)) > 1:
+            print("replay: signature reproduced (4 executions of run %d gave %d different results), digest equal"
+                  % (rp["run_index"], len(set(digs))))
+            print("  K0: %s" % rp["violation"]["detail"])
+            print("VIOLATION property=%s replay=%s" % (check.PROP, path))
+            return 1
+        print("replay: signature NOT reproduced (4 executions agree)")
+        return 0
     ctx = check.prepare(rp.get("tier", "quick"), rp.get("base_seed", 0)) if hasattr(check, "prepare") else None
     try:
         fn = make_replayer(check, rp["batch"], ctx)
@@ -228,6 +244,24 @@ def main(check, tier, base_seed):
         selftest = determinism_selftest(check, batches, base_seed, ctx,
                                         n=6 if tier == "quick" else 16)
         if selftest["mismatches"]:
+            if getattr(check, "NONDETERMINISM_IS_VIOLATION", False):
+                # for a property that says "same inputs => same bytes", two executions of one seed that differ
+                # are the violation itself (every source of nondeterminism a task can consult -- pid, clock,
+                # urandom, temp names, scheduling -- is simulated, and the harness is verified deterministic
+                # on the unchanged tree)
+                idx = [i for i in selftest["mismatches"] if isinstance(i, int)]
+                i = idx[0] if idx else 0
+                rdir = os.path.join(os.environ.get("VERIF_REPLAY_DIR") or os.path.join(VERIF, "replays"), prop)
+                os.makedirs(rdir, exist_ok=True)
+                rpath = os.path.join(rdir, "%d-%s-%d-rerun.json" % (base_seed, batches[0]["name"], i))
+                with open(rpath, "w", encoding="utf-8") as f:
+                    json.dump({"property": prop, "kind": "rerun-differs", "base_seed": base_seed, "tier": tier,
+                               "batch": batches[0]["name"], "run_index": i,
+                               "violation": {"inv": "K0", "sig": "K0:same-seed-two-executions-differ",
+                                             "detail": "run %d of batch %s gives different event logs / outputs when "
+                                                       "executed twice" % (i, batches[0]["name"])}}, f, indent=1)
+                if replay_file(check, rpath) == 1:
+                    return 1
             print("HARNESS-ERROR nondeterminism: %r" % (selftest["mismatches"],))
             return 2
         if selftest.get("results_depend_on_PYTHONHASHSEED"):
